@@ -140,9 +140,12 @@ def worker_main(argv: list[str]) -> int:
     }
     run_index = widx
     minimised = 0
+    executed: list[int] = []  # run indices this process has executed so far (the process history of a later run)
+    history_clean = True  # no minimiser executions in between (they are not part of the recorded history)
     while time.monotonic() - t0 < budget_s and res["runs"] < max_runs:
         run_seed = derive_seed(verif_seed, prop, tier, run_index)
         rng = random.Random(run_seed)
+        executed.append(run_index)
         try:
             trace = mod.generate(rng, tier)
             trace["run_seed"] = run_seed
@@ -182,8 +185,12 @@ def worker_main(argv: list[str]) -> int:
                 k["count"] += 1
                 continue
             entry = {"run_index": run_index, "run_seed": run_seed, "violation": vj, "trace": trace, "minimised": False}
+            if history_clean:
+                entry["process_history"] = {"property": prop, "tier": tier, "verif_seed": verif_seed, "run_indices": list(executed[:-1])}
+                entry["orig_trace"], entry["orig_violation"] = trace, vj
             if minimised < 2:
                 minimised += 1
+                history_clean = False
                 try:
                     def still(c: dict, _tag=vj["tag"], _ctx=vj.get("context", {})):
                         if hasattr(mod, "valid_trace") and not mod.valid_trace(c):
@@ -339,6 +346,53 @@ def run_check(prop: str, tier: str, verif_seed: int, budget_s: float | None = No
         )
         if rc.returncode == 1 and f"tag={tag}" in rc.stdout:
             reported.append((v, path))
+            continue
+        # Not reproducible from the trace alone. The library may keep state across optimizer instances of one process
+        # (a module- or class-level cache): then the execution is a function of the trace *and* of what the process ran
+        # before. The worker recorded that history; replay it in a fresh interpreter and minimise it to a suffix.
+        hist = v.get("process_history")
+        via_history = None
+        if hist and hist["run_indices"]:
+            otag = v["orig_violation"]["tag"]
+            hpath = os.path.join(VERIF, "replays", f"{prop}-{v['run_seed']}-history.json")
+
+            def try_history(indices: list[int]) -> bool:
+                t2 = dict(v["orig_trace"])
+                t2["expect"] = {"tag": otag, "event": v["orig_violation"]["event"]}
+                t2["violation"] = v["orig_violation"]
+                t2["process_history"] = {**hist, "run_indices": indices}
+                with open(hpath, "w") as f2:
+                    json.dump(t2, f2, indent=1)
+                r2 = subprocess.run(
+                    [PY, "-B", "-m", "simv.cli", "replay", hpath, "--quiet"], cwd=VERIF, env=_env(), capture_output=True, text=True, timeout=1800
+                )
+                return r2.returncode == 1 and f"tag={otag}" in r2.stdout
+
+            full = list(hist["run_indices"])
+            if try_history(full):
+                best = full
+                k = 1
+                while k < len(full):  # shortest reproducing suffix by doubling
+                    if try_history(full[-k:]):
+                        best = full[-k:]
+                        break
+                    k *= 2
+                for i in range(min(len(best), 12)):  # then drop single earlier runs (bounded)
+                    cand = best[:i] + best[i + 1 :]
+                    if len(best) > 1 and i < len(best) and try_history(cand):
+                        best = cand
+                if try_history(best):  # leaves the final file on disk
+                    vv = dict(v)
+                    vv["violation"] = dict(v["orig_violation"])
+                    vv["violation"]["context"] = {
+                        **vv["violation"].get("context", {}),
+                        "needs_process_history": len(best),
+                        "note_history": "reproduces only after earlier optimizer instances in the same process: state leaks across instances",
+                    }
+                    vv["minimised"] = len(best) < len(full)
+                    via_history = (vv, hpath)
+        if via_history is not None:
+            reported.append(via_history)
         else:
             harness_errors.append(
                 f"replay of {path} did not reproduce tag {tag} (exit {rc.returncode}): {rc.stdout[-500:]} {rc.stderr[-500:]}"
@@ -421,6 +475,17 @@ def replay(path: str, quiet: bool = False) -> int:
         trace = json.load(f)
     prop = trace["property"]
     mod = load_prop(prop)
+    hist = trace.get("process_history")
+    if hist:
+        # the runs this process executed before the failing one (regenerated from their seeds; outcomes are not judged)
+        for idx in hist["run_indices"]:
+            seed = derive_seed(int(hist["verif_seed"]), hist["property"], hist["tier"], int(idx))
+            try:
+                t = mod.generate(random.Random(seed), hist["tier"])
+                t["run_seed"], t["run_index"] = seed, int(idx)
+                mod.execute(t)
+            except Exception:  # noqa: BLE001
+                pass
     out: Outcome = mod.execute(trace)
     vs = [v for v in [out.violation] + list(out.extra_violations) if v is not None]
     expect = trace.get("expect")
